@@ -156,7 +156,20 @@ func validateEndpointOptionalPort(value string) error {
 		return fmt.Errorf("error splitting %q into host and port: %w", value, err)
 	}
 
-	if port != "" {
+	if err == nil {
+		// value has the form host:port
+		if port == "" || port[0] == '+' || port[0] == '-' {
+			return fmt.Errorf("port must be a valid number: %q", port)
+		}
+
+		if strings.HasPrefix(value, "[") && !strings.Contains(host, ":") {
+			return fmt.Errorf("%q: only IPv6 addresses may be enclosed in brackets", value)
+		}
+
+		if host == "unix" {
+			return fmt.Errorf("%q: NGINX reads the host name \"unix\" followed by a colon as a unix socket", value)
+		}
+
 		portVal, err := strconv.ParseInt(port, 10, 32)
 		if err != nil {
 			return fmt.Errorf("port must be a valid number: %w", err)
